@@ -32,6 +32,12 @@ meta = {
    'how': 'tools/confirm_seed.sh: fresh worktree of /repo HEAD, git apply patch.diff, baseline pytest command, demo.py with PYTHONPATH=<worktree>, then git checkout and demo again',
  },
 }
+try:
+    prev = json.load(open(os.path.join(d, 'meta.json')))
+    for k in ('summary', 'first_run', 'detected_by', 'detected', 'rebased'):
+        if k in prev: meta[k] = prev[k]
+except Exception:
+    pass
 meta['kept'] = (int(rcp) != 0 and int(rcc) == 0 and '60 passed' in suite and '8 failed' in suite)
 json.dump(meta, open(os.path.join(d, 'meta.json'), 'w'), indent=1)
 print('  kept:', meta['kept'])
